@@ -747,6 +747,15 @@ let check_rel (x : qobs) input =
        | Some fh, Some wh ->
            let f = unhexs fh and w = unhexs wh in
            let numeric = (not quoting) && (match parse_literal orc { typ = TLiteral; val0 = chars_of_string w } with E ((VInt _ | VFloat _), _, _, _, _) -> true | _ -> false) in
+           (* the generator's escaped spelling against the specification's (Spec/Escape.esc, the function the theorems
+              C08_*_any_script are about), with the oracle's letter and digit classes; a keyword gets one more backslash from
+              the generator and is outside the theorems' premise *)
+           (if not quoting && w <> "" && valid_utf8 w then begin
+              let sp = string_of_chars (esc cls (chars_of_string w)) in
+              let kwd = List.mem (String.uppercase_ascii sp) ["AND"; "OR"; "NOT"; "TO"] in
+              bump "C08e.spelling_tie";
+              if not kwd && x.q <> f ^ ":" ^ sp then record_mismatch "generator-escape-vs-spec-escape" (input @ [("spec", f ^ ":" ^ sp)])
+            end);
            if (quoting && not (String.contains w '"')) || (not quoting && w <> "" && not numeric) then begin
              checked "C08"; nontrivial "C08";
              let cls =
